@@ -586,7 +586,11 @@ class An(ResultQuantifier[T]):
             self._clear_result_caches_()
             raise
         finally:
-            results.close()
+            # closing the evaluation finalises whatever is suspended inside it - also user code (a generator used as a domain or
+            # behind a property that keeps a `with symbolic_mode():` block open while it yields): its block is left in the
+            # environment it was entered in, the evaluation's, not in the caller's.
+            with symbolic_mode(mode=None, _evaluation_stack=blocks_opened_by_user_code):
+                results.close()
             # also when the iterator is closed or dropped before it is exhausted, or user code raised.
             self._reset_cache_()
 
